@@ -424,3 +424,247 @@ Proof.
   { intros l. apply filter_ext'. intros a. unfold discardable. cbn. rewrite andb_true_r. reflexivity. }
   rewrite E1, E2. reflexivity.
 Qed.
+
+(* ---------- the operations of ConnLimits.v keep AdvEq (any tree) ---------- *)
+Definition not_wrote (r : outcome) : Prop := match r with OWrote _ => False | _ => True end.
+
+Lemma goc_adveq c p sid s c1 : AdvEq c p -> get_or_create c sid = GStream s c1 -> AdvEq c1 p.
+Proof.
+  intros A G. destruct (goc_vals _ _ _ _ G) as (V & T).
+  destruct (goc_shape _ _ _ _ G) as (D & [(G1 & E)|(G1 & Es & E1 & E2 & E3 & E4 & E5 & E6 & E7)]); [subst; exact A|].
+  unfold vals, sents in V, T. inversion V as [[V1 V2 V3]]. inversion T as [[T1 T2 T3]].
+  destruct A. constructor; unfold done, can_receive, SentOK, sent_ok in *;
+    rewrite ?E1, ?E2, ?E4, ?E5, ?V1, ?V2, ?V3, ?T1, ?T2, ?T3; try assumption.
+  - apply Forall_app; split; [assumption|]. constructor; [|constructor]. rewrite Es. left. reflexivity.
+  - intros k s1. rewrite sget_app1. destruct (sget k (c_streams c)) eqn:Gk.
+    + intros H; inversion H; subst. apply a_live0, Gk.
+    + destruct (sid =? k) eqn:E; [|discriminate]. intros H Dk _. inversion H; subst s1. assert (k = sid) by lia. subst k.
+      rewrite Es. cbn [sm_msd]. apply a_fresh0; assumption.
+  - intros k. rewrite sget_app1. destruct (sget k (c_streams c)) eqn:Gk; [discriminate|].
+    destruct (sid =? k); [discriminate|]. intros _. apply a_fresh0, Gk.
+  - rewrite map_app. cbn. apply NoDup_snoc; [assumption|]. intros Hin. destruct (sget_some_of_in _ _ Hin) as (x & Hx). congruence.
+Qed.
+
+Lemma AdvEq_sset c c2 p sid s s' : AdvEq c p -> sget sid (c_streams c) = Some s -> sm_msd s' = sm_msd s -> ssent_ok s' ->
+  c_streams c2 = sset sid s' (c_streams c) -> c_done c2 = c_done c -> c_client c2 = c_client c -> c_msd c2 = c_msd c ->
+  vals c2 = vals c -> sents c2 = sents c -> AdvEq c2 p.
+Proof.
+  intros A G Hm Hs E1 E2 E3 E4 V T. unfold vals, sents in V, T. inversion V as [[V1 V2 V3]]. inversion T as [[T1 T2 T3]].
+  destruct A. constructor; unfold done, can_receive, SentOK, sent_ok in *;
+    rewrite ?E1, ?E2, ?E3, ?E4, ?V1, ?V2, ?V3, ?T1, ?T2, ?T3; try assumption.
+  - apply Forall_sset; [assumption|]. intros k. exact Hs.
+  - intros k s1. rewrite (sget_sset _ _ _ _ _ G). destruct (k =? sid) eqn:E; [|apply a_live0].
+    intros H D R. inversion H; subst s1. assert (k = sid) by lia. subst k. rewrite Hm. apply (a_live0 _ _ G D R).
+  - intros k. rewrite (sget_sset _ _ _ _ _ G). destruct (k =? sid); [discriminate|]. apply a_fresh0.
+  - rewrite (keys_sset _ _ _ _ G). assumption.
+Qed.
+
+Lemma ssent_of c p sid s : AdvEq c p -> sget sid (c_streams c) = Some s -> ssent_ok s.
+Proof. intros A G. pose proof (a_ssent _ _ A) as F. rewrite Forall_forall in F. apply (F _ (sget_In _ _ _ G)). Qed.
+
+Lemma handle_stream_adveq c p ft sid off data r c' :
+  CInv c -> AdvEq c p -> handle_stream c ft sid off data = (r, c') -> AdvEq c' p /\ not_wrote r.
+Proof.
+  intros I A. unfold handle_stream.
+  destruct (off + Zlen data >? UINT_VAR_MAX); [intros H; inversion H; subst; split; [exact A|exact Logic.I]|].
+  destruct (negb (can_receive c sid)); [intros H; inversion H; subst; split; [exact A|exact Logic.I]|].
+  destruct (get_or_create c sid) as [s c1| |code] eqn:G; try (intros H; inversion H; subst; split; [exact A|exact Logic.I]).
+  destruct (goc_inv _ _ _ _ I G) as (I1 & G1 & _ & _).
+  pose proof (goc_adveq _ _ _ _ _ A G) as A1.
+  destruct (off + Zlen data >? sm_msd s); [intros H; inversion H; subst; split; [exact A|exact Logic.I]|].
+  destruct (_ >? l_value (c_data c1)); [intros H; inversion H; subst; split; [exact A|exact Logic.I]|].
+  destruct (handle_frame (sm_recv s) off data (Z.odd ft)) as [o r'].
+  assert (U : AdvEq (add_used (set_streams c1 (sset sid (with_recv s r') (c_streams c1)))
+                             (Z.max 0 (off + Zlen data - r_highest (sm_recv s)))) p).
+  { eapply (AdvEq_sset c1 _ p sid s (with_recv s r') A1 G1); try reflexivity. exact (ssent_of _ _ _ _ A1 G1). }
+  destruct o; intros H; inversion H; subst; (split; [first [exact A|exact U]|exact Logic.I]).
+Qed.
+
+Lemma handle_reset_stream_adveq c p sid fs r c' :
+  CInv c -> AdvEq c p -> handle_reset_stream c sid fs = (r, c') -> AdvEq c' p /\ not_wrote r.
+Proof.
+  intros I A. unfold handle_reset_stream.
+  destruct (negb (can_receive c sid)); [intros H; inversion H; subst; split; [exact A|exact Logic.I]|].
+  destruct (get_or_create c sid) as [s c1| |code] eqn:G; try (intros H; inversion H; subst; split; [exact A|exact Logic.I]).
+  destruct (goc_inv _ _ _ _ I G) as (I1 & G1 & _ & _).
+  pose proof (goc_adveq _ _ _ _ _ A G) as A1.
+  destruct (fs >? sm_msd s); [intros H; inversion H; subst; split; [exact A|exact Logic.I]|].
+  destruct (_ >? l_value (c_data c1)); [intros H; inversion H; subst; split; [exact A|exact Logic.I]|].
+  destruct (handle_reset (sm_recv s) fs) as [o r'].
+  assert (U : AdvEq (add_used (set_streams c1 (sset sid (with_recv s (bump_highest r' fs)) (c_streams c1)))
+                             (Z.max 0 (fs - r_highest (sm_recv s)))) p).
+  { eapply (AdvEq_sset c1 _ p sid s (with_recv s (bump_highest r' fs)) A1 G1); try reflexivity. exact (ssent_of _ _ _ _ A1 G1). }
+  destruct o; intros H; inversion H; subst; (split; [first [exact A|exact U]|exact Logic.I]).
+Qed.
+
+Lemma local_open_adveq c p sid : AdvEq c p -> AdvEq (local_open c sid) p.
+Proof.
+  intros A. unfold local_open. destruct (negb (can_send c sid)); [exact A|].
+  destruct (sget sid (c_streams c)) eqn:G; [exact A|].
+  destruct (Bool.eqb (client_initiated sid) (c_client c)) eqn:Own; cbn [negb]; [|exact A].
+  destruct A. constructor; unfold done, can_receive, SentOK in *;
+    cbn [set_streams c_data c_bidi c_uni c_streams c_done c_client c_msd]; try assumption.
+  - apply Forall_app; split; [assumption|]. constructor; [|constructor]. left. reflexivity.
+  - intros k s1. rewrite sget_app1. destruct (sget k (c_streams c)) eqn:Gk; [intros H1; inversion H1; subst; apply a_live0, Gk|].
+    destruct (sid =? k) eqn:E; [|discriminate]. intros H1 Hd R; inversion H1; subst. assert (k = sid) by lia. subst k. cbn [sm_msd].
+    rewrite Own in R. cbn [negb orb] in R. rewrite negb_true_iff in R. rewrite R. apply a_fresh0; assumption.
+  - intros k. rewrite sget_app1. destruct (sget k (c_streams c)) eqn:Gk; [discriminate|]. destruct (sid =? k); [discriminate|].
+    intros _. apply a_fresh0, Gk.
+  - rewrite map_app. cbn. apply NoDup_snoc; [assumption|]. intros Hin. destruct (sget_some_of_in _ _ Hin) as (x & Hx). congruence.
+Qed.
+
+Lemma limit_lost_adveq c p k : AdvEq c p -> AdvEq (limit_lost c k) p.
+Proof.
+  intros A. destruct A. destruct a_sent0 as (S1 & S2 & S3). unfold limit_lost.
+  destruct (k =? 0); [|destruct (k =? 1)]; constructor; unfold SentOK, sent_ok, done, can_receive in *; cbn; try assumption; auto.
+Qed.
+
+Lemma stream_limit_lost_adveq c p sid : AdvEq c p -> AdvEq (stream_limit_lost c sid) p.
+Proof.
+  intros A. unfold stream_limit_lost. destruct (sget sid (c_streams c)) as [s|] eqn:G; [|exact A].
+  eapply (AdvEq_sset c _ p sid s (mkStrm (sm_msd s) 0 (sm_sendfin s) (sm_recv s)) A G); try reflexivity. right. reflexivity.
+Qed.
+
+Lemma write_wrote c r c' : write c = (r, c') -> exists w, r = OWrote w.
+Proof.
+  unfold write. repeat match goal with |- (let '(_, _) := ?x in _) = _ -> _ => destruct x end.
+  intros H; inversion H; subst. eexists; reflexivity.
+Qed.
+
+Lemma write_adveq c p w c' : CInv c -> AdvEq c p -> write c = (OWrote w, c') -> AdvEq c' (peer_see p w).
+Proof.
+  intros I A H.
+  destruct (write_is_write_b c (pass_budget c) (conj (a_sent _ _ A) (a_ssent _ _ A)) (Z.le_refl _)) as (E & c1 & w1 & b' & L).
+  rewrite E in H. apply (write_b_adveq c p (pass_budget c) [] w c' I A H). right.
+  unfold write_b in H. rewrite L in H. inversion H; subst. eauto.
+Qed.
+
+Lemma step_adveq c p o r c' : CInv c -> AdvEq c p -> step c o = (r, c') -> AdvEq c' (see_outcome p r).
+Proof.
+  intros I A.
+  assert (Fin : forall c2 r2, AdvEq c2 p /\ not_wrote r2 -> AdvEq c2 (see_outcome p r2)).
+  { intros c2 r2 (A2 & NW). destruct r2; cbn [see_outcome]; try exact A2. contradiction NW. }
+  assert (Core : forall c2 r2, core_eq c c2 -> not_wrote r2 -> AdvEq c2 (see_outcome p r2)).
+  { intros c2 r2 E NW. apply Fin. split; [eapply AdvEq_core; eassumption|exact NW]. }
+  destruct o; cbn [step].
+  - intros H. apply Fin. eapply handle_stream_adveq; eassumption.
+  - intros H. apply Fin. eapply handle_reset_stream_adveq; eassumption.
+  - unfold handle_touch. destruct (negb _); [intros H; inversion H; subst; apply Fin; split; [exact A|exact Logic.I]|].
+    destruct (get_or_create c sid) as [s c1| |code] eqn:G; intros H; inversion H; subst; apply Fin; (split; [|exact Logic.I]);
+      try exact A. eapply goc_adveq; eassumption.
+  - intros H; inversion H; subst. apply Fin. split; [apply local_open_adveq, A|exact Logic.I].
+  - intros H. destruct (write_wrote _ _ _ H) as (w & Er). subst r. cbn [see_outcome]. eapply write_adveq; eassumption.
+  - intros H; inversion H; subst. apply Fin. split; [apply limit_lost_adveq, A|exact Logic.I].
+  - intros H; inversion H; subst. apply Fin. split; [apply stream_limit_lost_adveq, A|exact Logic.I].
+  - unfold handle_crypto.
+    destruct (_ >? UINT_VAR_MAX); [intros H; inversion H; subst; apply Core; [apply core_eq_refl|exact Logic.I]|].
+    destruct (_ >? MAX_PENDING_CRYPTO); [intros H; inversion H; subst; apply Core; [apply core_eq_refl|exact Logic.I]|].
+    destruct (handle_frame (c_crypto c) off data false) as [o r'].
+    destruct o as [|d0 f0| |]; try (intros H; inversion H; subst; apply Core; [repeat split|exact Logic.I]).
+    destruct (tls_parse _ _); intros H; inversion H; subst; apply Core; try (repeat split); exact Logic.I.
+  - unfold handle_path_challenge. intros H; inversion H; subst. apply Core; [|exact Logic.I].
+    destruct (Zlen (c_chal c) <? MAX_REMOTE_CHALLENGES); repeat split.
+  - intros H; inversion H; subst. apply Core; [repeat split|exact Logic.I].
+  - unfold handle_new_cid.
+    destruct (rpt >? seq); [intros H; inversion H; subst; apply Core; [apply core_eq_refl|exact Logic.I]|].
+    match goal with |- context[match ?x with Some _ => _ | None => _ end] => destruct x as [[active' avail3]|] end;
+      [|destruct NCID_EMPTY_CLOSES; intros H; inversion H; subst; (apply Core; [apply core_eq_refl|exact Logic.I])].
+    destruct (1 + Zlen avail3 >? LOCAL_ACTIVE_CID_LIMIT); [intros H; inversion H; subst; apply Core; [apply core_eq_refl|exact Logic.I]|].
+    match goal with |- context[if (Zlen ?q >? ?q2) then _ else _] => destruct (Zlen q >? q2) end;
+      [intros H; inversion H; subst; apply Core; [apply core_eq_refl|exact Logic.I]|].
+    intros H; inversion H; subst. apply Core; [repeat split|exact Logic.I].
+  - unfold handle_path_packet. destruct (pfind addr (c_paths c)); intros H; inversion H; subst; (apply Core; [repeat split|exact Logic.I]).
+Qed.
+
+Lemma xstep_adveq c p o r c' : (RAISE_BEFORE_START_FRAME = false \/ exists o', o = Plain o') ->
+  CInv c -> AdvEq c p -> xstep c o = (r, c') -> AdvEq c' (see_outcome p r).
+Proof.
+  intros C I A. destruct o as [o|b keepl]; cbn [xstep]; [apply step_adveq; assumption|].
+  intros H. destruct (write_b_shape _ _ _ _ _ H) as (c1 & w & ro & _ & Er & _). subst r. cbn [see_outcome].
+  apply (write_b_adveq c p b keepl w c' I A H). left. destruct C as [C|(o' & E)]; [exact C|discriminate E].
+Qed.
+
+Lemma xrun_adveq : RAISE_BEFORE_START_FRAME = false -> forall ops c p os c', CInv c -> AdvEq c p ->
+  xrun c ops = (os, c') -> AdvEq c' (adv_ledger p os).
+Proof.
+  intros Fl. induction ops as [|o t IH]; intros c p os c' I A; cbn [xrun].
+  - intros H; inversion H; subst. exact A.
+  - destruct (xstep c o) as [r c1] eqn:S. pose proof (xstep_inv _ _ _ _ I S) as I1.
+    pose proof (xstep_adveq _ _ _ _ _ (or_introl Fl) I A S) as A1.
+    destruct (closes r); [intros H; inversion H; subst; exact A1|].
+    destruct (xrun c1 t) as [rs c2] eqn:R. intros H; inversion H; subst. cbn [adv_ledger fold_left].
+    eapply IH; eassumption.
+Qed.
+
+Lemma run_adveq : forall ops c p os c', CInv c -> AdvEq c p -> run c ops = (os, c') -> AdvEq c' (adv_ledger p os).
+Proof.
+  induction ops as [|o t IH]; intros c p os c' I A; cbn [run].
+  - intros H; inversion H; subst. exact A.
+  - destruct (step c o) as [r c1] eqn:S. pose proof (step_inv _ _ _ _ I S) as I1.
+    pose proof (step_adveq _ _ _ _ _ I A S) as A1.
+    destruct (closes r); [intros H; inversion H; subst; exact A1|].
+    destruct (run c1 t) as [rs c2] eqn:R. intros H; inversion H; subst. cbn [adv_ledger fold_left].
+    eapply IH; eassumption.
+Qed.
+
+(* the statement of the invariant, spelled out *)
+Definition enforced_eq_ledger (c : conn) (p : peer) : Prop :=
+  l_value (c_data c) = p_adv_data p /\ l_value (c_bidi c) = p_adv_bidi p /\ l_value (c_uni c) = p_adv_uni p /\
+  (forall sid s, sget sid (c_streams c) = Some s -> existsb (Z.eqb sid) (c_done c) = false -> can_receive c sid = true ->
+     sm_msd s = p_adv_msd p sid) /\
+  (forall sid, sget sid (c_streams c) = None -> existsb (Z.eqb sid) (c_done c) = false -> c_msd c = p_adv_msd p sid).
+
+Lemma AdvEq_spelled c p : AdvEq c p -> enforced_eq_ledger c p.
+Proof.
+  intros A. destruct A. unfold done in *. repeat split; try (symmetry; assumption).
+  - intros sid s G D R. symmetry. apply a_live0; assumption.
+  - intros sid G D. symmetry. apply a_fresh0; assumption.
+Qed.
+
+(* goal 1: every history with cut passes, tree that raises only next to the written frame *)
+Lemma enforced_is_advertised_x : RAISE_BEFORE_START_FRAME = false -> forall cl msd md cb ops os c,
+  0 <= msd -> 0 <= md -> 0 <= cb ->
+  xrun (conn_init cl msd md cb) ops = (os, c) ->
+  enforced_eq_ledger c (adv_ledger (peer_init msd md) os).
+Proof.
+  intros Fl cl msd md cb ops os c H1 H2 H3 R. apply AdvEq_spelled.
+  exact (xrun_adveq Fl ops _ _ os c (CInv_init cl msd md cb H1 H2 H3) (AdvEq_init cl msd md cb) R).
+Qed.
+
+(* goal 3: histories of complete passes, any tree (the per-stream analogue of advertised_is_enforced, plus the three
+   connection-level limits as the MAXIMUM of the values written) *)
+Lemma enforced_is_advertised_complete : forall cl msd md cb ops os c,
+  0 <= msd -> 0 <= md -> 0 <= cb ->
+  run (conn_init cl msd md cb) ops = (os, c) ->
+  enforced_eq_ledger c (adv_ledger (peer_init msd md) os) /\
+  Forall (fun q => sm_sent (snd q) = sm_msd (snd q) \/ sm_sent (snd q) = 0) (c_streams c).
+Proof.
+  intros cl msd md cb ops os c H1 H2 H3 R.
+  pose proof (run_adveq _ _ _ _ _ (CInv_init cl msd md cb H1 H2 H3) (AdvEq_init cl msd md cb) R) as A.
+  split; [apply AdvEq_spelled, A|apply (a_ssent _ _ A)].
+Qed.
+
+(* goal 2: buffer_bounded against the ADVERTISED limits *)
+Lemma buffer_bounded_advertised : RAISE_BEFORE_START_FRAME = false -> forall cl msd md cb ops os c,
+  0 <= msd -> 0 <= md -> 0 <= cb ->
+  xrun (conn_init cl msd md cb) ops = (os, c) ->
+  let p := adv_ledger (peer_init msd md) os in
+  sum_buf (c_streams c) <= sum_hi (c_streams c) /\
+  sum_hi (c_streams c) + c_gone c <= l_used (c_data c) /\ 0 <= c_gone c /\
+  l_used (c_data c) <= p_adv_data p /\
+  (forall sid s, sget sid (c_streams c) = Some s -> existsb (Z.eqb sid) (c_done c) = false -> can_receive c sid = true ->
+     0 <= r_start (sm_recv s) /\
+     Zlen (r_buf (sm_recv s)) <= r_highest (sm_recv s) - r_start (sm_recv s) /\
+     r_highest (sm_recv s) <= p_adv_msd p sid) /\
+  0 <= l_used (c_bidi c) <= p_adv_bidi p /\ 0 <= l_used (c_uni c) <= p_adv_uni p.
+Proof.
+  intros Fl cl msd md cb ops os c H1 H2 H3 R p.
+  pose proof (xrun_inv _ _ _ _ (CInv_init cl msd md cb H1 H2 H3) R) as I.
+  destruct (enforced_is_advertised_x Fl _ _ _ _ _ _ _ H1 H2 H3 R) as (E1 & E2 & E3 & E4 & _). fold p in E1, E2, E3, E4.
+  pose proof (ci_streams _ I) as Fs.
+  split; [apply sum_buf_le_hi; assumption|]. split; [apply I|]. split; [apply I|].
+  split; [rewrite <- E1; apply I|]. split.
+  { intros sid s G D Rc. rewrite Forall_forall in Fs. destruct (Fs _ (sget_In _ _ _ G)) as (B & Hm). cbn in B, Hm.
+    rewrite <- (E4 _ _ G D Rc). destruct B. unfold top in *. lia. }
+  rewrite <- E2, <- E3. split; apply I.
+Qed.
